@@ -212,8 +212,12 @@ private:
     {
         byte_vector_t row( this->_info._width * (this->_info._bits_per_pixel / 8) );
 
-        // jump to first scanline
-        this->_io_dev.seek( static_cast< long >( this->_info._offset ));
+        // jump to the first requested scanline: the file stores the rows bottom-up
+        // unless the screen origin bit is set (then the caller passes a flipped view)
+        std::ptrdiff_t const rows_below = static_cast< std::ptrdiff_t >( this->_info._height )
+                                        - this->_settings._top_left.y - this->_settings._dim.y;
+        std::ptrdiff_t const skip = this->_info._screen_origin_bit ? this->_settings._top_left.y : rows_below;
+        this->_io_dev.seek( static_cast< long >( this->_info._offset + skip * row.size() ));
 
         View_Src v = interleaved_view( this->_info._width,
                                        1,
@@ -281,9 +285,15 @@ private:
                                                              reinterpret_cast<typename View_Src::value_type*>( &image_data.front() ),
                                                              this->_info._width * num_channels< View_Src >::value ) );
 
+        // v holds the whole image; first row of the requested rectangle in v
+        // (v is bottom-up when the screen origin bit is set, as is the caller's flipped view)
+        std::ptrdiff_t const rows_below = static_cast< std::ptrdiff_t >( this->_info._height )
+                                        - this->_settings._top_left.y - this->_settings._dim.y;
+        std::ptrdiff_t const first = this->_info._screen_origin_bit ? rows_below : this->_settings._top_left.y;
+
         for( std::ptrdiff_t y = 0; y != this->_settings._dim.y; ++y )
         {
-            typename View_Src::x_iterator beg = v.row_begin( y ) + this->_settings._top_left.x;
+            typename View_Src::x_iterator beg = v.row_begin( first + y ) + this->_settings._top_left.x;
             typename View_Src::x_iterator end = beg + this->_settings._dim.x;
             this->_cc_policy.read( beg, end, view.row_begin(y) );
         }
